@@ -141,9 +141,13 @@ func runC06(r *Run, p *Prog) {
 					continue
 				}
 				arms++
-				if _, seen := mapTerms[strip(T.T(mu.Map))]; !seen {
-					// (a map kept in a member of the cursor is loaded anew at each use: one map per term)
-					mapTerms[strip(T.T(mu.Map))] = mu.Map
+				if _, isLoad := mu.Map.(*ssa.UnOp); isLoad {
+					// (a map kept in a member of the cursor is loaded anew at each use: one map per member term)
+					if _, seen := mapTerms[strip(T.T(mu.Map))]; !seen {
+						mapTerms[strip(T.T(mu.Map))] = mu.Map
+						maps[mu.Map] = true
+					}
+				} else {
 					maps[mu.Map] = true
 				}
 				key := T.T(mu.Key)
